@@ -208,9 +208,22 @@ func (fr *frame) symIndex(x value, idx value) value {
 	s := idx.(sym)
 	n := lenOf(x)
 	xp := fr.i.x
-	in := xp.mk("(bvult "+s.e+" "+bvLit(uint64(n), s.s.bits())+")", sBool)
-	if n == 0 || !xp.decide(in, "index-in-range") {
-		panic(runtimeErr(fmt.Sprintf("runtime error: index out of range [symbolic] with length %d", n)))
+	bits := s.s.bits()
+	always := bits < 63 && uint64(n) >= uint64(1)<<uint(bits) && fr.symIdxUnsigned
+	if !always {
+		// compare in 64 bits: a negative signed index becomes a huge unsigned one, i.e. out of range
+		w := s.e
+		if bits < 64 {
+			ext := "sign_extend"
+			if fr.symIdxUnsigned {
+				ext = "zero_extend"
+			}
+			w = fmt.Sprintf("((_ %s %d) %s)", ext, 64-bits, s.e)
+		}
+		in := xp.mk("(bvult "+w+" "+bvLit(uint64(n), 64)+")", sBool)
+		if n == 0 || !xp.decide(in, "index-in-range") {
+			panic(runtimeErr(fmt.Sprintf("runtime error: index out of range [symbolic] with length %d", n)))
+		}
 	}
 	u := xp.concretize(s, "index@"+fr.pos())
 	return int(u)
